@@ -194,7 +194,10 @@ ScopeShapes(body) ==
              <<Elem("c", <<Attr("slot:", "x", None)>>, <<For(EV(Id("l")), "x", "index", "", body)>>)>>)>>,
       <<For(EV(Id("l")), "x", "index", "", <<Elem("dyn-c", <<Attr("plain", "sv-x", EV(Id("x")))>>,
              <<Elem("c", <<Attr("slot:", "x", SV("index"))>>, body)>>)>>)>> }
+WxsLate == [n |-> "zz", late |-> TRUE, members |-> << <<"k", VS("Zk")>> >>]
 F6 == {FileW(<<>>, <<>>, r) : r \in ScopeShapes(ProbeAll)}
+      (* a script module added after parsing, by name, through the group API: the scopes keep their meaning *)
+      \cup {FileW(w, <<>>, r) : r \in ScopeShapes(ProbeAll), w \in {<<WxsLate>>, <<WxsM, WxsLate>>}}
       \cup {FileW(<<WxsM>>, <<>>, r) : r \in ScopeShapes(ProbeAll)}
       (* the same scope shapes inside the body of a template definition (which sees script modules and its own
          data only), in a file with and without a script module *)
